@@ -380,6 +380,16 @@ func (h *DNSHandler) ProcessMDNS(frame packet.Frame) (ipv4 []packet.IPNameEntry,
 
 	model := ""
 	section := "answer"
+	// skip the current resource of the section being read; SkipAnswer only works in the answer section
+	skip := func() error {
+		switch section {
+		case "answer":
+			return p.SkipAnswer()
+		case "authority":
+			return p.SkipAuthority()
+		}
+		return p.SkipAdditional()
+	}
 	for {
 		var hdr dnsmessage.ResourceHeader
 		switch section {
@@ -453,7 +463,9 @@ func (h *DNSHandler) ProcessMDNS(frame packet.Frame) (ipv4 []packet.IPNameEntry,
 			r, err := p.PTRResource()
 			if err != nil {
 				LoggerMDNS.Msg("invalid PTR resource").String("name", hdr.Name.String()).Error(err).Write()
-				p.SkipAnswer()
+				if err := skip(); err != nil {
+					return ipv4, ipv6, err
+				}
 				continue
 			}
 			if Debug {
@@ -478,7 +490,9 @@ func (h *DNSHandler) ProcessMDNS(frame packet.Frame) (ipv4 []packet.IPNameEntry,
 				} else {
 					LoggerMDNS.Msg("invalid SRV resource").String("name", hdr.Name.String()).Error(err).Write()
 				}
-				p.SkipAnswer()
+				if err := skip(); err != nil {
+					return ipv4, ipv6, err
+				}
 				continue
 			}
 			if Debug {
@@ -489,7 +503,9 @@ func (h *DNSHandler) ProcessMDNS(frame packet.Frame) (ipv4 []packet.IPNameEntry,
 			r, err := p.TXTResource()
 			if err != nil {
 				LoggerMDNS.Msg("invalid TXT resource").String("name", hdr.Name.String()).Error(err).Write()
-				p.SkipAnswer()
+				if err := skip(); err != nil {
+					return ipv4, ipv6, err
+				}
 				continue
 			}
 			if m := parseTXT(r.TXT); m != "" {
@@ -504,7 +520,9 @@ func (h *DNSHandler) ProcessMDNS(frame packet.Frame) (ipv4 []packet.IPNameEntry,
 			if err != nil {
 				// fmt.Printf("mdns  : error invalid OPT resource name=%s error=[%s]\n", hdr.Name, err)
 				LoggerMDNS.Msg("invalid OPT resource").String("name", hdr.Name.String()).Error(err).Write()
-				p.SkipAnswer()
+				if err := skip(); err != nil {
+					return ipv4, ipv6, err
+				}
 				continue
 			}
 			if Debug {
@@ -516,12 +534,16 @@ func (h *DNSHandler) ProcessMDNS(frame packet.Frame) (ipv4 []packet.IPNameEntry,
 				// fmt.Printf("mdns  : NSEC resource type not implemented %+v\n", hdr)
 				LoggerMDNS.Msg("NSEC resource not implemented").String("name", hdr.Name.String()).Sprintf("hdr", hdr).Write()
 			}
-			p.SkipAnswer()
+			if err := skip(); err != nil {
+				return ipv4, ipv6, err
+			}
 
 		default:
 			// fmt.Printf("mdns  : error unexpected resource type %+v\n", hdr)
 			LoggerMDNS.Msg("ignoring unexpected resource type").String("name", hdr.Name.String()).Sprintf("hdr", hdr).Write()
-			p.SkipAnswer()
+			if err := skip(); err != nil {
+				return ipv4, ipv6, err
+			}
 		}
 	}
 }
